@@ -47,6 +47,10 @@ impl Stats {
         }
     }
     pub fn violation(&mut self, prop: &str, sig: &str, what: &str, case: u64, detail: Value) {
+        // root-cause tag of the recorded fold-lore finding (mon::taint); empty outside honest histories
+        let step = detail.get("step").and_then(|x| x.as_u64()).map(|x| x as usize);
+        let tagged = format!("{sig}{}", crate::mon::taint::suffix(prop, step));
+        let sig = tagged.as_str();
         // keep at most a handful per signature: the first witness is what matters
         let same = self.violations.iter().filter(|v| v.sig == sig).count();
         self.inc(&format!("violations[{sig}]"), 1);
@@ -236,6 +240,12 @@ pub fn finish(cfg: &Cfg, rep: Report, wall_s: f64, verif_dir: &str) -> i32 {
         "{} {}: evaluations={} distinct_nontrivial={} violations={} known={} inconclusive={} wall={:.1}s",
         rep.prop, tier, evaluations, nontrivial, new_violations, known_hits.len(), rep.stats.inconclusive.len(), wall_s
     );
+    if cfg.only_case.is_some() {
+        // a single-case replay writes no evidence file: show what the case observed instead
+        for (k, v) in &rep.stats.counters {
+            println!("  counter {k} = {v}");
+        }
+    }
     if new_violations > 0 {
         return 1;
     }
